@@ -405,12 +405,17 @@ class System:
             return isinstance(e, _q.Full) or "queue is full" in str(e).lower()
         self.clock.t += 40                              # both peers are due for a RESYNC (snapshot) again
         n0 = self.tolerated
-        for _ in range(BOUND + 6):
+        for k in range(4 * BOUND):
+            if k >= BOUND + 6 and self.dist.size_outgoing() >= BOUND and self.tolerated > n0:
+                break
             self.as_role("feeder", self.receiver.add_data, "a", what="receiver.add_data", tolerate=expected)
             self.as_role("engine", self.engine.update, what="engine.update (outgoing queue full)", tolerate=expected)
         self.flood_full = self.dist.size_outgoing()
         self.flood_refused = self.tolerated - n0
-        self.outgoing(3)
+        self.outgoing(BOUND + 8)                        # drain: the rest of the workload starts from an empty queue
+        for _ in range(6):                              # ... and from empty task queues
+            self.as_role("engine", self.engine.update, what="engine.update", tolerate=expected)
+        self.outgoing(BOUND + 8)
         self.observe()
 
     def getters(self):
